@@ -19,14 +19,29 @@ import common
 import nslast as A
 import nslgen
 import optfamily
+import irmachine
 import semrun
 import irproj
 
 FEATS = [dict(vectors=False), dict(vectors=True, structs=False, maxstmts=4, depth=1), dict(vectors=False, calls=False, maxstmts=8)]
 
 
+IRM_GEN = {"quick": 60, "thorough": 800}
+_TIER = ["quick"]
+
+
+def traced(kind, ident):
+    if kind == "gen":
+        return int(ident) < IRM_GEN[_TIER[0]]
+    if kind == "fam":
+        parts = ident.split("-")
+        return len(parts) <= 2 or _TIER[0] == "thorough"
+    return False
+
+
 def work(job):
-    kind, items = job
+    kind, items = job[:2]
+    _TIER[0] = job[2] if len(job) > 2 else "quick"
     from nsl import LinearIR
     out = []
     for ident, prog, inputs in items:
@@ -52,6 +67,13 @@ def work(job):
                                        gl if raw else {k: A.dec(v) for k, v in gl.items()}, budget=300000)
                         obs["ret_repr"] = A.show_py(obs.get("ret"))
                         lv["runs"].append(obs)
+                    if opt and not raw and traced(kind, ident):
+                        # the optimised module's runs once more, instruction by instruction, for spec/IRMachine.tla
+                        params = [p_["n"] for p_ in [f for f in prog["funcs"] if f["name"] == "f"][0]["params"]]
+                        rec["irm"] = {"mod": irmachine.machine_module(program, LinearIR), "runs": []}
+                        for j, (args, gl) in enumerate(inputs[:2]):
+                            o2, ev, trunc = irmachine.trace_run(program, LinearIR, "f", {k: A.dec(v) for k, v in args.items()}, {k: A.dec(v) for k, v in gl.items()})
+                            rec["irm"]["runs"].append({"j": j, "args": [args[n] for n in params], "globals": gl, "obs": o2, "events": ev, "truncated": trunc})
                 except BaseException as e:  # noqa
                     lv["st"] = "link-error"
                     lv["why"] = f"{type(e).__name__}: {e}"[:120]
@@ -102,8 +124,8 @@ def run(ctx, args):
         prog = g.program()
         gen.append((str(i), prog, [g.inputs(prog) for _ in range(3)]))
     big = big_family()
-    jobs = [("fam", fam[i:i + 40]) for i in range(0, len(fam), 40)] + [("gen", gen[i:i + 20]) for i in range(0, len(gen), 20)] \
-        + [("big", big[i:i + 40]) for i in range(0, len(big), 40)]
+    jobs = [("fam", fam[i:i + 40], ctx.tier) for i in range(0, len(fam), 40)] + [("gen", gen[i:i + 20], ctx.tier) for i in range(0, len(gen), 20)] \
+        + [("big", big[i:i + 40], ctx.tier) for i in range(0, len(big), 40)]
     with mp.Pool(16) as pool:
         recs = [r for out in pool.map(work, jobs) for r in out]
     # ---- the language semantics on every case
@@ -198,6 +220,11 @@ def run(ctx, args):
                     samples.append({"source": r["src"], "args": case["args"], "both_levels_return": o1["ret_repr"], "prescribed": semrun.show_spec(s["ret"])})
             else:
                 ctx.violation(f"{pre}both-levels-{kind}", "optimised and unoptimised agree with each other but not with the language: " + detail, case)
+    # ---- the optimised modules' executions against the IR machine
+    import c01
+    for r in recs:
+        r["i"] = r["id"]
+    irm = c01.irm_validate(ctx, recs, "optimize=True")
     if counts.get("levels-agree", 0) == 0 and not ctx.violations:
         raise common.Machinery("vacuous run: no case in which both levels ran")
     if nontrivial == 0 and not ctx.violations:
@@ -206,7 +233,8 @@ def run(ctx, args):
         ctx, level="model_checking", evaluations=len(cases) * 2, distinct_nontrivial=nontrivial,
         rule=f"{len(fam)} optimiser-family programs (all sequences of <= {3 if quick else 4} of {len(optfamily.TEMPLATES)} statement templates, copy chains, and all sequences of <= 3 over a second alphabet of {len(optfamily.TEMPLATES2)} templates: aggregate copies followed by literal element stores, sibling blocks re-declaring a name) x 3 inputs and {n} seeded programs x 3 inputs; "
              "each compiled with optimize False and True: accept/reject compared, both modules run on the VM (value, globals, failures compared), both compared "
-             "with NslSem's prescription (TLC), both IR modules checked by IRWellFormed over all paths. distinct_nontrivial = programs whose IR the optimiser changed.",
+             "with NslSem's prescription (TLC), both IR modules checked by IRWellFormed over all paths; "
+             f"{irm['cases']} runs of optimised modules ({irm['events']} instruction events) validated against spec/IRMachine.tla. distinct_nontrivial = programs whose IR the optimiser changed.",
         samples=samples or [{"note": "no long agreeing case in this batch"}], traces_validated=counts.get("levels-agree", 0),
         assumptions=["compared only when the unoptimised module succeeds (the statement's wording)", "5 and 5.0 are the same value"],
-        extra={"outcome_counts": counts, "functions_checked_by_IRWellFormed": len(fns), "distinct_functions": len(ufns)})
+        extra={"outcome_counts": counts, "functions_checked_by_IRWellFormed": len(fns), "distinct_functions": len(ufns), "irmachine_trace_validation": irm})
